@@ -532,8 +532,9 @@ public:
          if(ps == list.last())
          {
             // because we want to extend the last vector we must not shrink its max memory usage
-            // in order to ensure the missing memory
-            ensureMem(newmax - ps->max(), false);
+            // in order to ensure the missing memory; ensureMem() may nevertheless pack the memory, which cuts the
+            // capacity of every vector (also of this one) down to its size, so reserve for that case
+            ensureMem(newmax - sz, false);
 #ifndef NDEBUG
             Nonzero<R>* olddata = SVSetBaseArray::data;
             SVSetBaseArray::insert(memSize(), newmax - ps->max());
